@@ -113,8 +113,9 @@ partial def loop (h : IO.FS.Stream) (out : IO.FS.Stream) (st : Stats) (ln : Nat)
                           projective := st.projective + (if !eoi && !isAffine m then 1 else 0) }
       if boxList model == boxList real then loop h out st (ln + 1)
       else
+        let matStr := " ".intercalate (((ws.drop 10).take 16).map (fun t => qStr (parseQ t)))
         if st.diffs < 20 then
-          out.putStrLn s!"DIFF {ln} ovl={ovl} ty={ws[2]!} box={boxStr b} old={boxStr r} model={boxStr model} real={boxStr real} line={line.trimAscii.toString}"
+          out.putStrLn s!"DIFF {ln} ovl={ovl} ty={ws[2]!} box={boxStr b} m(row-major)={matStr} old={boxStr r} model={boxStr model} real={boxStr real} line={line.trimAscii.toString}"
         loop h out { st with diffs := st.diffs + 1 } (ln + 1)
 
 def main (args : List String) : IO Unit := do
